@@ -20,7 +20,7 @@ for rf in sorted(glob.glob(f'{S}/{RES}/C*-*.json')):
     shutil.copy(f'{out}/demo{n}.rs',f'{dst}/demo.rs')
     try: meta=json.load(open(f'{out}/meta{n}.json'))
     except Exception as e: meta={'property':pid,'summary':'(meta file of the sub-agent did not parse)'}
-    log=open(f'{S}/{RES}/{sid}.log').read() if os.path.exists(f'{S}/{RES}/{sid}.log') else ''
+    log=open(f'{S}/{RES}/{sid}.log',errors='replace').read() if os.path.exists(f'{S}/{RES}/{sid}.log') else ''
     conf=[l for l in log.splitlines() if l.startswith(('suite with patch','demo with patch','demo without patch','SEED-'))]
     prev=json.load(open(f'{dst}/meta.json')) if os.path.exists(f'{dst}/meta.json') else {}
     caught=sorted(set(r.get('caught_by',[]))|set(prev.get('checks_run',{}).get('caught_by',[]))|set(EXTRA.get(sid,{}).get('caught_by',[])))
